@@ -1665,6 +1665,9 @@ def fuse_comprehension_loops(fn) -> int:
     return done
 
 
+from .core import copy_ast as _copy_ast  # noqa: E402  (structural copy: analysis back-links such as _parent are not followed)
+
+
 def fuse_tuple_comprehensions(fn) -> int:
     """L = [(e1, .., en) for T in S if c]      (L a name the original function does not have, used exactly once)
        ... [f(p1, .., pn) for p1, .., pn in L if d] ...
@@ -1740,7 +1743,7 @@ def fuse_tuple_comprehensions(fn) -> int:
                 class Sub(ast.NodeTransformer):
                     def visit_Name(self, n):
                         if isinstance(n.ctx, ast.Load) and n.id in mp:
-                            return ast.copy_location(copy.deepcopy(mp[n.id]), n)
+                            return ast.copy_location(_copy_ast(mp[n.id]), n)
                         return n
 
                 sub = Sub()
@@ -1817,7 +1820,7 @@ def thread_constant_flags(fn) -> int:
                     taken = (not st.value.value) if neg else st.value.value
                     br.remove(st)
                     if taken:
-                        j = copy.deepcopy(b.body[0])
+                        j = _copy_ast(b.body[0])
                         ast.copy_location(j, st)
                         br.append(j)
                     if not br:
